@@ -92,6 +92,8 @@ def spec_typed(raw):
     if ":" in raw:
         parts = raw.split(":")
         return (parts[0], parts[1]) if len(parts) == 2 else "any"
+    if not all(c in "0123456789abcdefABCDEF" for c in raw):
+        return "nonhex"                          # "32/40/64 hex digits ... anything else rejected": not a digest at all
     return {32: ("md5", raw), 40: ("sha1", raw), 64: ("sha256", raw)}.get(len(raw))
 
 
@@ -121,6 +123,14 @@ class C16(Prop):
             self._gen = json.load(open(os.path.join(ROOT, "lean", "generated.json")))
         return self._gen
 
+    @staticmethod
+    def algo_ok(a):
+        try:
+            hashlib.new(a).hexdigest()
+            return True
+        except Exception:
+            return False
+
     def workdir(self):
         if self._dir is None:
             self._dir = tempfile.mkdtemp(prefix="c16-")
@@ -144,6 +154,7 @@ class C16(Prop):
             pairs = [(s, a) for s in SIZES for a in ("md5", "sha1", "sha256")]
             pairs += [(s, a) for a in algos for s in (0, 1, MIB + 1)]
             pairs += [(rng.choice(SIZES[2:]), a) for a in algos]
+            pairs += [(MIB + 1, a) for a in ("SHA256", "Md5", "SHA1") if self.algo_ok(a)]        # audit A4: case variants of the same name
         else:
             pairs = [(s, a) for s in SIZES for a in algos]
             pairs += [(rng.randrange(0, 4 * MIB), rng.choice(algos)) for _ in range(40)]
@@ -164,7 +175,8 @@ class C16(Prop):
             yield {"op": "add", "args": {"path": tpl % tuple(comps), "type": rng.choice(["sha256", "md5", "sha1"]), "value": rng.choice([None, None, ""]),
                                          "root": True, "size": rng.choice([1, 5, 1000]), "before": [], "links": dict(zip(comps, modes))}}
         # 2. add with redundant path components
-        comps = ["a", "b", "Z.img", ".", "..", "", "x y", "..."]
+        comps = ["a", "b", "Z.img", ".", "..", "", "x y", "...", " ", "a b ", "\t", "\u00a0x", "a:b", "a=b", "#x", "%s", "[x]", "a\\b", "\"q\"", "a,b;c",
+                 "\u00e9\u0663\uff17", "\U0001F600", "n" * 120, "None", "0", "tree", "a"]          # audit A1, A2, A3, A5
         n_add = max(60, budget // 6)
         fixed = ["./x//y/../Z.img", "a/./b", "a//b", "x/../a", "x/../../a", "..", ".", "", "a/", "/abs/p", "//abs2", "///abs3", "a/..", "./", "../x/..", "a/b/../../c"]
         for i in range(n_add):
@@ -174,8 +186,10 @@ class C16(Prop):
                 rel = "/".join(rng.choice(comps) for _ in range(rng.randint(1, 6)))
                 if rng.random() < 0.1:
                     rel = "/" + rel
-            value = rng.choice([None, "", "%032x" % rng.getrandbits(128), "cafe"])
+            value = rng.choice([None, "", "%032x" % rng.getrandbits(128), "cafe", 0, False, [], " ", "None", "0"])          # audit A8: every falsy value computes
             before = [[posixpath.normpath(rng.choice(fixed[:6])), [rng.choice(["md5", "sha1"]), "%08x" % rng.getrandbits(32)]] for _ in range(rng.randint(0, 2))]
+            if rel and not rel.startswith("/") and rng.random() < 0.3:
+                before.append([posixpath.normpath(rel), ["md5", "00"]])           # audit A10: two spellings normalising to the same key
             before = [e for j, e in enumerate(before) if e[0] not in [x[0] for x in before[:j]]]
             yield {"op": "add", "args": {"path": rel, "type": rng.choice(["sha256", "md5", "sha512", "no-such-algo"]) if rng.random() < 0.9 else "sha1",
                                          "value": value, "root": rng.random() < 0.85, "size": rng.choice([0, 5, 1000]), "before": before}}
@@ -191,10 +205,19 @@ class C16(Prop):
                 return "".join(rng.choice("0123456789abcdef") for _ in range(rng.choice([l for l in lens if l not in (0, 32, 40, 64)])))
             if kind == "multi":
                 return "sha256:ab:cd"
+            if kind == "blank":
+                return ""
+            if kind == "inner-blank":
+                return "sha256: ab cd"
+            if kind == "nonhex":                     # right length, not hex digits (audit A5: looks like a digest by length only)
+                return rng.choice(["z" * 32, "\u0663" * 40, "g" * 64, "0" * 31 + "-", "\uff17" * 32])
+            if kind == "near-length":                # digests of other algorithms: sha224 / sha384 / sha512 lengths
+                return "".join(rng.choice("0123456789abcdef") for _ in range(rng.choice([56, 96, 128])))
             return "sha1:"
         # every order of a small mixed set (exhaustive), then random mixes
         base_sets = [["typed", "bare-ok", "bare-bad"], ["bare-bad", "typed"], ["bare-ok", "bare-ok", "typed"], ["typed", "typed", "bare-bad", "bare-ok"],
-                     ["bare-bad"], ["multi", "typed"], ["empty-value", "bare-ok"]]
+                     ["bare-bad"], ["multi", "typed"], ["empty-value", "bare-ok"], ["blank", "typed"], ["inner-blank", "bare-ok"], ["nonhex", "typed"],
+                     ["near-length", "bare-ok"], []]
         n_sec = 0
         for kinds in base_sets:
             vals = [raw(k) for k in kinds]
@@ -211,32 +234,49 @@ class C16(Prop):
                 if key in keys:
                     continue
                 keys.add(key)
-                entries.append([key, raw(rng.choice(["typed", "typed", "bare-ok", "bare-ok", "bare-bad", "multi", "empty-value"]))])
+                entries.append([key, raw(rng.choice(["typed", "typed", "bare-ok", "bare-ok", "bare-bad", "multi", "empty-value", "inner-blank", "nonhex", "near-length"]))])
+            if rng.random() < 0.2:                   # audit A4: keys that differ only in case
+                entries += [["UP/low", raw("typed")], ["up/LOW", raw("bare-ok")]]
+                entries = [e for j, e in enumerate(entries) if e[0] not in [x[0] for x in entries[:j]]]
             header = rng.random() < 0.8
-            if not header and rng.random() < 0.6:
-                entries.append([rng.choice(["/mnt/tree/os/images/pxe.img", "/abs/no-os-dir/file", "//mnt/os/x/os/y"]), raw("typed")])
-            yield {"op": "load_section", "args": {"entries": entries, "header": header, "seed": rng.randrange(5)}}
+            if not header and rng.random() < 0.6:    # audit C2: the literal "/os/", an extension and a proper prefix of it
+                entries.append([rng.choice(["/mnt/tree/os/images/pxe.img", "/abs/no-os-dir/file", "//mnt/os/x/os/y", "/mnt/os2/x", "/mnt/o/s/x", "/os/", "/os"]), raw("typed")])
+            preload = [[rng.choice(["images/boot.iso", "stale/entry"]), ["md5", "0" * 32]]] if rng.random() < 0.2 else []       # audit B2: load into a NON-EMPTY object
+            yield {"op": "load_section", "args": {"entries": entries, "header": header, "seed": rng.randrange(5), "preload": preload}}
         # 4. write + read
-        for _ in range(max(40, budget // 6)):
+        safe_keys = ["images/boot.iso", "images/efiboot.img", "LiveOS/squashfs.img", "UP/low", "up/LOW", "a b/c", "\u00e9/\u0663", "a;b", "x" * 200, "None", "0", "a/a/a", "%s"]
+        unsafe_keys = ["a:b/c", "a=b", "#x", ";x", "[x]", " lead", "trail ", "a = b"]            # audit A2/A1: the INI format's own delimiters in a PATH
+        tpool = ["sha256", "md5", "sha1", "sha512", "MiXed", "SHA256", "m d", "a=b", "a#b", "a;b", "%(x)s", "None", ""]
+        for i in range(max(60, budget // 5)):
+            unsafe = i % 6 == 5
             table = {}
             for _ in range(rng.randint(0, 4)):
-                key = rng.choice(["images/boot.iso", "images/efiboot.img", "LiveOS/squashfs.img", "UP/low", "a b/c"]) + rng.choice(["", "0"])
-                t = rng.choice(["sha256", "md5", "sha1", "sha512", "MiXed", "a:b"] if rng.random() < 0.15 else ["sha256", "md5", "sha1", "sha512", "MiXed"])
-                v = "%x" % rng.getrandbits(rng.choice([8, 128, 256]))
+                key = rng.choice(safe_keys) + rng.choice(["", "0"])
+                if unsafe and rng.random() < 0.6:
+                    key = rng.choice(unsafe_keys)
+                t = rng.choice(tpool + ["a:b"]) if rng.random() < 0.15 else rng.choice(tpool)
+                v = rng.choice(["%x" % rng.getrandbits(rng.choice([8, 128, 256])), "a=b", "a#b", "a ;b", "1 1", "None", "0", "", "f" * 300, "\u00e9"])
+                if unsafe and rng.random() < 0.3:
+                    v = rng.choice([" 11", "11 ", "\t11"])
                 if rng.random() < 0.05:
                     v = v[:2] + ":" + v[2:]
                 table[key] = [t, v]
-            yield {"op": "roundtrip", "args": {"table": sorted(table.items()), "seed": rng.randrange(5)}}
+            yield {"op": "roundtrip", "args": {"table": sorted(table.items()), "seed": rng.randrange(5), "unsafe": unsafe,
+                                               "style": ["item", "assign", "add"][i % 3], "second": i % 4 == 0}}
+        # 5b. non-string falsy values (audit A8): outside the model's universe (str | None), oracle only
+        for _ in range(20):
+            ops = [[rng.choice(["md5", "sha1"]), rng.choice(["aa", "bb", 0, False, [], {}, 0.0, None, ""])] for _ in range(rng.randint(2, 6))]
+            yield {"op": "add_checksum_seq", "args": {"initial": [], "ops": ops, "no_model": True}}
         # 5. add_checksum sequences
         for ops, initial in [([["SHA256", "aa"], ["SHA256", "bb"]], []), ([["sha256", "aa"], ["SHA256", "bb"]], []), ([["SHA256", ""]], [["sha256", "aa"]]),
                              ([["Md5", "aa"], ["md5", "bb"], ["MD5", "cc"], ["Md5", "aa"], ["Md5", "dd"]], []), ([["SHA256", "bb"], ["SHA256", None]], [["sha256", "aa"]])]:
             yield {"op": "add_checksum_seq", "args": {"initial": initial, "ops": ops}}
         for _ in range(max(60, budget // 5)):
-            vals = ["aa", "bb", "", None, "%032x" % rng.getrandbits(128)]
+            vals = ["aa", "bb", "", None, "%032x" % rng.getrandbits(128), " ", "None", "0", "f" * 300, "AA"]
             # algorithm names as hashlib accepts them: mixed case, the same name in two spellings within one sequence, names
             # that differ only in case - the library treats every exact spelling as its own key
             pool = rng.choice([["md5", "sha1", "sha256"], ["sha256", "SHA256"], ["Md5", "md5", "MD5"], ["SHA256"], ["sha1", "Sha1", "sha256", "SHA256"],
-                               ["md5", "sha1", "sha256", "SHA256", "Md5", "sha512", "SHA512"]])
+                               ["md5", "sha1", "sha256", "SHA256", "Md5", "sha512", "SHA512"], ["", " ", "md5"], ["sha256", "sha256 ", "\uff53ha256"]])
             ops = [[rng.choice(pool), rng.choice(vals)] for _ in range(rng.randint(1, 7))]
             initial = [[t, rng.choice(vals[:3])] for t in rng.sample(sorted(set(x.lower() for x in pool)), rng.randint(0, min(2, len(set(x.lower() for x in pool)))))]
             yield {"op": "add_checksum_seq", "args": {"initial": initial, "ops": ops}}
@@ -357,29 +397,59 @@ class C16(Prop):
             except Exception as e:
                 return {"ini_error": type(e).__name__}
             ti = T.TreeInfo()
+            for k, tv in a.get("preload", []):
+                ti.checksums.checksums[k] = tuple(tv)
+            again = None
             try:
                 ti.loads(text)
                 res = {"ok": dict((k, list(v)) for k, v in ti.checksums.checksums.items())}
+                try:                                 # audit B2/B5: what was read is written (current header now) and read again
+                    t3 = T.TreeInfo()
+                    t3.loads(ti.dumps())
+                    again = {"ok": dict((k, list(v)) for k, v in t3.checksums.checksums.items())}
+                except Exception as e:
+                    again = {"err": errname(e)}
             except Exception as e:
                 res = {"err": type(e).__name__ if type(e).__name__ in ERRS or type(e).__name__ == "UnboundLocalError" else "Other"}
-            return {"items": items, "result": res}
+            return {"items": items, "result": res, "again": again}
         if op == "roundtrip":
             import productmd.common as C
             ti = fmt7.treeinfo(random.Random(a["seed"]))
-            ti.checksums.checksums.clear()
-            for k, tv in a["table"]:
-                ti.checksums.checksums[k] = tuple(tv)
+            style = a.get("style", "item")
+            if style == "assign":                    # audit B4: a fresh container assigned vs the default one filled in place
+                ti.checksums.checksums = dict((k, tuple(tv)) for k, tv in a["table"])
+            else:
+                ti.checksums.checksums.clear()
+                for k, tv in a["table"]:
+                    if style == "add" and tv[1] and posixpath.normpath(k) == k and not k.startswith("/"):
+                        ti.checksums.add(k, tv[0], tv[1])
+                    else:
+                        ti.checksums.checksums[k] = tuple(tv)
             try:
                 text = ti.dumps()
+                # audit B3/B1: read-only calls between the steps change nothing; the same dump twice gives the same bytes
+                snapshot = dict((k, list(v)) for k, v in ti.checksums.checksums.items())
+                for k in list(ti.checksums.checksums):
+                    ti.checksums[k]
+                if ti.dumps() != text or dict((k, list(v)) for k, v in ti.checksums.checksums.items()) != snapshot:
+                    return {"result": {"err": "Other", "at": "read-only-calls-changed-state"}, "items": None}
             except Exception as e:
                 return {"result": {"err": errname(e), "at": "dump"}, "items": None}
             cp = C.SortedConfigParser()
-            cp.read_string(text)
-            items = [[k, v] for k, v in cp.items("checksums")] if cp.has_section("checksums") else []
+            try:
+                cp.read_string(text)
+                items = [[k, v] for k, v in cp.items("checksums")] if cp.has_section("checksums") else []
+            except Exception:
+                items = None                         # the INI reader itself refuses the written text
             t2 = T.TreeInfo()
             try:
                 t2.loads(text)
                 res = {"ok": dict((k, list(v)) for k, v in t2.checksums.checksums.items())}
+                if a.get("second"):                  # audit B2: load -> modify -> dump -> load
+                    t2.checksums.add("second/cycle.img", "sha256", "ab" * 32)
+                    t3 = T.TreeInfo()
+                    t3.loads(t2.dumps())
+                    res["second"] = dict((k, list(v)) for k, v in t3.checksums.checksums.items())
             except Exception as e:
                 res = {"err": errname(e), "at": "load"}
             return {"result": res, "items": items}
@@ -405,13 +475,13 @@ class C16(Prop):
         if op == "add":
             r = self._last
             dg = {"ok": r["expected_digest"]} if r.get("expected_digest") is not None else {"err": "Other" if a["type"] != "no-such-algo" else "ValueError"}
-            return [{"op": "ck_add", "args": {"table": a["before"], "path": a["path"], "type": a["type"], "value": a["value"],
+            return [{"op": "ck_add", "args": {"table": a["before"], "path": a["path"], "type": a["type"], "value": a["value"] if isinstance(a["value"], str) else None,
                                              "root": "R" if a["root"] else None, "digest": dg}}]
         if op == "load_section":
             r = self._last
             if "ini_error" in r:
                 return []
-            return [{"op": "ck_deserialize", "args": {"legacy": not a["header"], "section": r["items"]}}]
+            return [{"op": "ck_deserialize", "args": {"legacy": not a["header"], "section": r["items"], "initial": a.get("preload", [])}}]
         if op == "roundtrip":
             r = self._last
             reqs = [{"op": "ck_serialize", "args": {"table": [[k, tv] for k, tv in a["table"]]}}]
@@ -419,7 +489,7 @@ class C16(Prop):
                 reqs.append({"op": "ck_deserialize", "args": {"legacy": False, "section": r["items"]}})
             return reqs
         if op == "add_checksum_seq":
-            return [{"op": "ck_add_checksums", "args": {"table": a["initial"], "ops": a["ops"]}}]
+            return [] if a.get("no_model") else [{"op": "ck_add_checksums", "args": {"table": a["initial"], "ops": a["ops"]}}]
         return []
 
     def real_and_stash(self, case):
@@ -470,8 +540,10 @@ class C16(Prop):
                 return None if ok else {"real": rres, "model": ser}
             if rres.get("at") == "dump":
                 return {"real": rres, "model": ser}
-            if sorted(map(list, ser["ok"])) != sorted(real_out["items"]):
+            if not a.get("unsafe") and real_out["items"] is not None and sorted(map(list, ser["ok"])) != sorted(real_out["items"]):
                 return {"real": {"section": sorted(real_out["items"])}, "model": {"section": sorted(map(list, ser["ok"]))}}
+            if len(outs) < 2:
+                return None
             m = outs[1]
             mv = {"ok": dict((k, tv) for k, tv in m["ok"])} if "ok" in m else {"err": m["err"]}
             rv = {"ok": rres["ok"]} if "ok" in rres else {"err": rres["err"]}
@@ -531,12 +603,19 @@ class C16(Prop):
                     got = res["ok"].get(k)
                     if sp is None:
                         return {"observed": {"loaded": True, "path": k, "raw": v, "got": got}, "required": "a bare value whose length is not 32/40/64 is rejected", "kind": "unrecognised-accepted"}
+                    if sp == "nonhex":
+                        return {"observed": {"loaded": True, "path": k, "raw": v, "got": got},
+                                "required": "a bare value that is not 32/40/64 HEX digits is rejected", "kind": "nonhex-bare-accepted"}
                     if sp == "any":
                         continue
                     if got != list(sp):
                         return {"observed": {"path": k, "raw": v, "got": got}, "required": {"path": k, "entry": list(sp)}, "kind": "wrong-type-or-value"}
+                clean = all(":" not in x for tv in res["ok"].values() for x in tv) and all(not re.search(r"^\s|\s$|[:=]|^[#;\[]", k) for k in res["ok"])
+                if clean and r.get("again") is not None and r["again"] != {"ok": res["ok"]} and not any(k.startswith("/") for k, _ in a["entries"]):
+                    return {"observed": {"loaded": res["ok"], "after_dump_and_reload": r["again"]}, "required": "what was read survives a write + read", "kind": "reload-differs"}
                 return None
-            if all(sp not in (None, "any") for _, _, sp in specs) and not any(k.startswith("/") for k, _ in a["entries"]):
+            if all(sp not in (None, "any", "nonhex") for _, _, sp in specs) and not any(k.startswith("/") for k, _ in a["entries"]) \
+                    and not any(k.startswith("/") for k, _ in a.get("preload", [])):
                 return {"observed": res, "required": "a section of well-formed entries loads", "kind": "valid-section-refused"}
             if res["err"] != "ValueError":
                 return {"observed": res, "required": "a malformed entry is rejected with ValueError", "kind": "wrong-error-class"}
@@ -545,9 +624,16 @@ class C16(Prop):
             res = r["result"]
             clean = all(":" not in t and ":" not in v for _, (t, v) in a["table"])
             want = dict((k, list(tv)) for k, tv in a["table"])
+            if res.get("at") == "read-only-calls-changed-state":
+                return {"observed": res, "required": "__getitem__ / dumps change nothing", "kind": "read-only-call-mutates"}
             if "ok" in res:
                 if res["ok"] != want:
                     return {"observed": res["ok"], "required": want, "kind": "roundtrip-differs"}
+                if "second" in res:
+                    want2 = dict(want)
+                    want2["second/cycle.img"] = ["sha256", "ab" * 32]
+                    if res["second"] != want2:
+                        return {"observed": res["second"], "required": want2, "kind": "second-cycle-differs"}
             elif clean:
                 return {"observed": res, "required": "table survives write + read", "kind": "roundtrip-refused"}
             return None
